@@ -71,7 +71,7 @@ impl Property for Prop {
         "C02"
     }
     fn rule(&self) -> &'static str {
-        "trains: key -> seeded (PDU length from the size lattice / ranges up to 65533 - label, content class, label case incl. substituted first fragment, frag id 0..=255, protocol type >= 0x0600, one of 16 buffer-size schedules: constant 13/14/20/100/4096/4097/4098/5000/70000, random mix with tiny buffers, payload-fits-but-CRC-does-not, land-on-PDU-end-then-tiny, descending ramp, ascending ramp, first buffer 1..8 bytes short of the complete packet followed by exact-fit end buffers; receiver storage == PDU length or 70000). Every encap/encap_frag call and every decap call is an evaluation. A train is non-trivial when it was fragmented (>= 2 packets), completed, and the receiver delivered; fingerprint = (PDU length, schedule, label case, frag id, number of packets)."
+        "trains: key -> seeded (PDU length from the size lattice / ranges up to 65533 - label, content class, label case incl. substituted first fragment, frag id 0..=255, protocol type >= 0x0600, one of 16 buffer-size schedules: constant 13/14/20/100/4096/4097/4098/5000/70000, random mix with tiny buffers, payload-fits-but-CRC-does-not, land-on-PDU-end-then-tiny, descending ramp, ascending ramp, first buffer 1..8 bytes short of the complete packet followed by exact-fit end buffers; receiver storage == PDU length, 65535 / 65536 / 65537, multiples of 65536, or 70000). Every encap/encap_frag call and every decap call is an evaluation. A train is non-trivial when it was fragmented (>= 2 packets), completed, and the receiver delivered; fingerprint = (PDU length, schedule, label case, frag id, number of packets)."
     }
     fn gens(&self, cx: &Cx) -> Vec<Gen> {
         vec![Gen { name: "trains", count: cx.n(30_000, 2_000_000), exhaustive: false }, Gen { name: "lengths", count: 65534, exhaustive: true }]
@@ -120,7 +120,15 @@ impl Property for Prop {
         let pdu = gen_pdu(&mut rng, plen, (key % 5) as usize);
         let frag_id = rng.byte();
         let ptype = gen_user_ptype(&mut rng);
-        let storage = if rng.chance(1, 2) { plen } else { 70000 };
+        // "sufficient storage": exactly the PDU, or boxes around the 16-bit boundary and far above it
+        let storage = match rng.below(8) {
+            0..=2 => plen,
+            3 => plen.max(65535),
+            4 => 65536,
+            5 => 65537,
+            6 => [131072usize, 65536 + plen, 196608][rng.below(3)],
+            _ => 70000,
+        };
         let mut s = Sender::new(0x21);
         let mut dec = plain_dec(1 + rng.below(3), storage, 2, storage, MandTable::none());
         let cls = format!("sched{}:{}", sched, ["6B", "3B", "bcast", "6Bsub", "3Bsub", "3Bzero"][case]);
